@@ -410,6 +410,9 @@ class Maker:
       return stubmod.TempBox([self(e) for e in d['box']])
     if 'nt' in d:
       return stubmod.NT(*[self(e) for e in d['nt']])
+    if 'ddict' in d:
+      import collections
+      return collections.defaultdict(list, {k: self(v) for k, v in d['ddict']})
     if 'hostile' in d:
       return stubmod.Hostile()
     if 'tv' in d:
@@ -483,7 +486,10 @@ def model_build(v, memo, flags=None):
   elif isinstance(v, tuple):
     out = tuple(model_build(e, memo, flags) for e in v)
   elif isinstance(v, dict):
-    out = {kk: model_build(e, memo, flags) for kk, e in v.items()}
+    import collections
+    items = {kk: model_build(e, memo, flags) for kk, e in v.items()}
+    out = (collections.defaultdict(v.default_factory, items)
+           if isinstance(v, collections.defaultdict) else items)
   elif isinstance(v, stubmod.TempBox):
     out = stubmod.TempBox([model_build(e, memo, flags) for e in v.children])
   else:
